@@ -376,7 +376,7 @@ def run_catchment_case(ctx, case):
 
 def run(ctx):
     rng = ctx.rng(1)
-    nrep = 40 if ctx.tier == "quick" else 400
+    nrep = 40 if ctx.tier == "quick" else 3000
     try:
         for it0 in range(nrep):
             it = it0 + ctx.shard
